@@ -400,6 +400,82 @@ def check(an: Analysis) -> None:
             ob.fail(aenter, r, "the returned state does not come from the enter fan-out")
 
 
+    # ------------------------------------------------------------------ C08.9 every disposable given is kept
+    ob = an.ob("C08.9", "K5+K9", "every disposable given reaches the collection the fan-outs run over: Disposables.__init__ keeps its variadic parameter element for element and ctx.scope spreads the `disposables` iterable itself into Disposables(...) - no set / dict.fromkeys / sorted / filter in between (equal but distinct disposables are all entered and exited)", [f"{D}.__init__", "context.access.ctx.scope"])
+    dinit = prog.fn(f"{D}.__init__")
+    ddi = Deps(prog, dinit)
+    va = dinit.node.args.vararg.arg if dinit.node.args.vararg else None
+    stores = [n for n in dinit.own_nodes() if isinstance(n, (ast.Assign, ast.AnnAssign)) and any(dotted(t) == "self._disposables" for t in (n.targets if isinstance(n, ast.Assign) else [n.target]))]
+    stores += [n for n in dinit.own_nodes() if isinstance(n, ast.Call) and dotted(n.func) == "object.__setattr__" and len(n.args) == 3 and isinstance(n.args[1], ast.Constant) and n.args[1].value == "_disposables"]
+    if va is None or not stores:
+        ob.missing(dinit, None, "Disposables.__init__ does not store a variadic parameter as self._disposables")
+    for st in stores:
+        ob.inst(dinit, st)
+        v = st.args[2] if isinstance(st, ast.Call) else st.value
+        if va is not None and not _same_elements(an, dinit, ddi, v, va):
+            ob.fail(dinit, st, "Disposables.__init__ does not keep the disposables it was given element for element (filtered, de-duplicated, re-ordered or replaced)")
+    scope_f = prog.fn("context.access.ctx.scope")
+    dsc = Deps(prog, scope_f)
+    dq = prog.cls(D).qualname
+    # (function, its Deps, the name the iterable has there): ctx.scope itself and helpers it hands the parameter to
+    sites: list[tuple[FunctionInfo, Deps, str]] = [(scope_f, dsc, "disposables")]
+    for c in [c for c in scope_f.own_nodes() if isinstance(c, ast.Call)]:
+        tq = an.callee(scope_f, c)
+        tf = prog.functions.get(tq or "")
+        if tf is None or tf is scope_f:
+            continue
+        pos = [a.arg for a in tf.node.args.posonlyargs + tf.node.args.args]
+        for i, a in enumerate(c.args):
+            if is_name(a, "disposables") and i < len(pos):
+                sites.append((tf, Deps(prog, tf), pos[i]))
+        for k in c.keywords:
+            if k.arg and is_name(k.value, "disposables") and k.arg in tf.param_names():
+                sites.append((tf, Deps(prog, tf), k.arg))
+    n_ctor = 0
+    for sf, sd, pname in sites:
+        for c in [c for c in sf.own_nodes() if isinstance(c, ast.Call) and an.callee(sf, c) in (dq, dq + ".__init__")]:
+            n_ctor += 1
+            ob.inst(sf, c)
+            ok = len(c.args) == 1 and not c.keywords and isinstance(c.args[0], ast.Starred) and _same_elements(an, sf, sd, c.args[0].value, pname)
+            if not ok:
+                ob.fail(sf, c, "ctx.scope does not hand every element of the `disposables` iterable to Disposables(...): equal / filtered-out disposables are never entered nor exited")
+    if not n_ctor:
+        ob.missing(scope_f, None, "ctx.scope builds no Disposables from the iterable it was given")
+
+
+def _same_elements(an: Analysis, fi: FunctionInfo, d: Deps, e: ast.AST | None, param: str, depth: int = 5) -> bool:
+    """`e` evaluates to a sequence holding exactly the elements of parameter `param`, in order (identity, tuple/list
+    copies, [*x], unfiltered identity comprehensions, match captures of it)."""
+    from ..domains import comp_of
+
+    e = unwrap(e)
+    if e is None or depth < 0:
+        return False
+    if isinstance(e, ast.Name):
+        defs = d.defs(fi, e.id) if d.owner(e.id) is fi else []
+        # a match capture of the name itself (`case Disposables() as disposables`) re-binds it to the same object
+        defs = [(k, v) for k, v in defs if not (k == "value" and is_name(unwrap(v), e.id))]
+        if e.id == param and [k for k, _ in defs] == ["param"]:
+            return True
+        vals = [v for k, v in defs if k == "value"]
+        if defs and len(vals) == len(defs) and all(_same_elements(an, fi, d, v, param, depth - 1) for v in vals):
+            return True
+        sh = comp_of(d, e)
+        if sh is not None and not sh.is_dict and not sh.filtered and not getattr(sh, "flatten", False):
+            names = sh.target_names()
+            return len(names) == 1 and is_name(sh.elt, names[0]) and _same_elements(an, fi, d, sh.iter, param, depth - 1)
+        return False
+    if isinstance(e, (ast.List, ast.Tuple)) and len(e.elts) == 1 and isinstance(e.elts[0], ast.Starred):
+        return _same_elements(an, fi, d, e.elts[0].value, param, depth - 1)
+    if isinstance(e, ast.Call) and an.callee(fi, e) in ("builtins.tuple", "builtins.list", "builtins.iter") and len(e.args) == 1 and not e.keywords:
+        return _same_elements(an, fi, d, e.args[0], param, depth - 1)
+    if isinstance(e, (ast.ListComp, ast.GeneratorExp)):
+        sh = CompShape(e)
+        names = sh.target_names() if sh.ok else []
+        return sh.ok and not sh.filtered and len(names) == 1 and is_name(sh.elt, names[0]) and _same_elements(an, fi, d, sh.iter, param, depth - 1)
+    return False
+
+
 def _is_entered_subset(an: Analysis, fi: FunctionInfo, d: Deps, sh: CompShape, depth: int = 3) -> bool:
     """The fan-out `sh` runs over exactly the disposables whose enter result is not an exception."""
     from ..domains import comp_of
